@@ -525,6 +525,12 @@ func (g *G) Scalar(typ string, depth int, label string) Val {
 			n := rapid.SampledFrom([]int{23, 24, 25, 30, 255, 256, 300, 400, 1000, 5000}).Draw(t, label+".clen")
 			v.S = rapid.SliceOfN(rapid.Byte(), n, n).Draw(t, label+".cl")
 		}
+		if rapid.IntRange(0, 3).Draw(t, label+".chead") == 0 {
+			// "no sanity check is performed on b": payloads that look like CBOR themselves, among them the
+			// heads this very field kind is wrapped in (tag 63 + byte string), breaks and open containers
+			h := rapid.SampledFrom([][]byte{{0xd8, 0x3f}, {0xd8, 0x3f, 0x43}, {0xd8, 0x3f, 0x58, 0x20}, {0xd8, 0x3f, 0x5f}, {0xbf}, {0xff}, {0x5f}, {0x7f}, {0x9f}, {0xc0}, {0xc1}, {0xd9, 0x01, 0x07}, {0xd9, 0x01, 0x04}, {0xf6}, {0xfb}, {0x5b, 0xff, 0xff}}).Draw(t, label+".chd")
+			v.S = append(append([]byte{}, h...), v.S...)
+		}
 	case "bool":
 		v.B = rapid.Bool().Draw(t, label+".b")
 	case "int":
@@ -776,7 +782,7 @@ func (g *G) Settings() Settings {
 		s.DurUnit, s.DurInt = -1, false
 	}
 	if !g.cfg.C08 {
-		s.FloatPrec = rapid.SampledFrom([]int{-1, -1, -1, -1, 0, 1, 3, 17}).Draw(t, "set.fp")
+		s.FloatPrec = rapid.SampledFrom([]int{-1, -1, -1, -1, -1, 0, 1, 2, 3, 17, -2}).Draw(t, "set.fp")
 	}
 	s.ErrMarshal = rapid.SampledFrom([]string{"", "", "", "string", "obj", "othererr", "nil", "struct"}).Draw(t, "set.em")
 	s.StackMarshal = rapid.SampledFrom([]string{"", "", "nil", "string", "error", "obj", "frames", "nilerr"}).Draw(t, "set.sm")
